@@ -6,6 +6,7 @@ import DimodProofs.ZipEnd
 import DimodProofs.CqmClosed
 import DimodProofs.DqmClosed
 import DimodProofs.CqmDomain
+import DimodProofs.ZipStrict
 
 /-! # C10 — a truncated model file never loads as a different model -/
 
@@ -451,5 +452,79 @@ theorem loader_repairs_from_source :
 example : sigOnlyAtEnd ([1, 2] ++ eocdRecord 0 0 0) = true ∧
     (∀ i, SigAt ([1, 2] ++ eocdRecord 0 0 0) i → ([1, 2] ++ eocdRecord 0 0 0).length ≤ i + 22) :=
   ⟨by decide, sigOnlyAtEnd_sound _ (by decide)⟩
+
+/-! ## round 8: the tiling check alone is not enough — the directory must agree with the local headers
+
+Found on the real (round-7 repaired) loader: a payload can spell a directory that lists a COVER member at the header end
+whose `compress_size` spans every real member up to the embedded ones; the members then tile the file, the loader never
+opens the cover, and a truncated file loads as the embedded model (`notes/repro/r8e-cqm-cover-member.py`).  Repaired in
+dimod by `patches/cqm-archive-local-headers.diff`; `openTiledStrict` is the model of the repaired opener. -/
+
+/-- **the round-7 walk trusts the directory's size** (the mechanism of the defect, a theorem about the model `tilesFrom` of
+    the round-7 `_open_archive`): a listed member at the walk's position moves the walk by `30 + name + extra + c` for EVERY
+    `compress_size = c` the directory states — so a directory spelled by the payload reaches any position it likes,
+    in particular the first embedded member. -/
+theorem tiling_walk_trusts_directory_size (file : Bytes) (sd ocd pos : Nat) (i : CDInfo) (c : Nat) (h1 : ocd ≤ i.offset + sd)
+    (h2 : i.offset + sd - ocd = pos) (h3 : ((file.drop (pos + 26)).take 4).length = 4) :
+    tilesFrom file sd ocd pos [{ i with csize := c }] =
+      some (pos + 30 + leNat (((file.drop (pos + 26)).take 4).take 2) + leNat (((file.drop (pos + 26)).take 4).drop 2) + c) :=
+  tilesFrom_single file sd ocd pos i c h1 h2 h3
+
+/-- **the repaired opener accepts every archive the writer appended** — no valid file is refused, the members are read as
+    before — given that each local header records the size of its data (`ZEntry.LocalOK`: the 4-byte field, or `0xFFFFFFFF`
+    and the zip64 extra of `force_zip64=True`; a Boolean the driver evaluates on every generated file). -/
+theorem local_header_check_accepts_written (crc32 : Bytes → Nat) (inflate : Bytes → Option Bytes) (pre : Bytes) (zs : List ZEntry)
+    (hz : ∀ z ∈ zs, z.OK crc32 inflate) (hl : ∀ z ∈ zs, z.LocalOK) (hcount : zs.length < 256 ^ 2)
+    (hsize : pre.length + (zipLocals zs).length + (zipCD pre.length zs).length < 4294967295) :
+    openTiledStrict crc32 inflate pre.length (pre ++ zipBytes pre.length zs) = some (zs.map fun z => (z.name, z.content)) :=
+  openTiledStrict_zipBytes crc32 inflate pre zs hz hl hcount hsize
+
+/-- **the directory cannot lie**: whatever directory `zipfile` found (`infos`: ANY list — the real one or one spelled by a
+    payload, with any `start_dir` / `offset_cd`), if the repaired walk passes over the local entries the writer wrote after
+    the header, then the listed members ARE the first `infos.length` written members — same names, same sizes, same order —
+    and the walk (hence `start_dir`) stands at the boundary after them.  So a truncated file can only be accepted with a
+    directory that sits at a member boundary and lists exactly the real members before it. -/
+theorem local_header_check_directory_cannot_lie (sd ocd : Nat) (zs : List ZEntry) (pre post : Bytes) (infos : List CDInfo) (p : Nat)
+    (hl : ∀ z ∈ zs, z.LocalOK) (hlen : infos.length ≤ zs.length)
+    (h : tilesFromStrict (pre ++ (zipLocals zs ++ post)) sd ocd pre.length infos = some p) :
+    infos.map (fun i => (i.name, i.csize)) = (zs.take infos.length).map (fun z => (z.name, z.stored.length)) ∧
+    p = pre.length + (zipLocals (zs.take infos.length)).length :=
+  tilesFromStrict_sound sd ocd zs pre post infos p hl hlen h
+
+/-- **the cover member is refused**: a directory whose first member (in offset order) states another size than the local
+    header of the first written member — the counterexample class of round 8 — fails the repaired walk, whatever follows. -/
+theorem local_header_check_refuses_cover (sd ocd : Nat) (z : ZEntry) (pre rest : Bytes) (i : CDInfo) (t : List CDInfo) (hz : z.LocalOK)
+    (hc : i.csize ≠ z.stored.length) : tilesFromStrict (pre ++ (localEntry z ++ rest)) sd ocd pre.length (i :: t) = none :=
+  tilesFromStrict_cover_none sd ocd z pre rest i t hz hc
+
+/-- **the repaired opener refines the round-7 opener**: what it opens, the tiling opener opens with the same members; so it
+    still refuses an archive that does not start where the header ended (`tiling_check_accepts_and_refuses` (ii)). -/
+theorem local_header_check_refines_tiling (crc32 : Bytes → Nat) (inflate : Bytes → Option Bytes) :
+    (∀ start file ms, openTiledStrict crc32 inflate start file = some ms → openTiled crc32 inflate start file = some ms) ∧
+    ∀ (other : Bytes) (base start : Nat) (z : ZEntry) (zs' : List ZEntry), other.length ≠ start →
+      (∀ y ∈ z :: zs', y.OK crc32 inflate) → (z :: zs').length < 256 ^ 2 →
+      base + (zipLocals (z :: zs')).length + (zipCD base (z :: zs')).length < 4294967295 →
+      openTiledStrict crc32 inflate start (other ++ zipBytes base (z :: zs')) = none := by
+  refine ⟨fun start file ms h => openTiled_of_strict crc32 inflate start file ms h, fun other base start z zs' hs hz hc hsz => ?_⟩
+  cases h : openTiledStrict crc32 inflate start (other ++ zipBytes base (z :: zs')) with
+  | none => rfl
+  | some ms =>
+    have := openTiled_of_strict crc32 inflate start _ ms h
+    rw [openTiled_embedded_none crc32 inflate other base start z zs' hs hz hc hsz] at this
+    exact absurd this (by simp)
+
+/-- **the round-8 repair is in the source under test** (regenerated by `harness/translators/fileconsts.py` from the ast of
+    `_open_archive`): the walk compares the directory's `header_offset`, `compress_size` and `orig_filename` with what the
+    local header at that position records, and checks the local signature.  A source that drops the comparison breaks this
+    theorem; the harness (`adversarial_payloads`: cover member) then produces the truncated file that loads as another model. -/
+theorem loader_repairs_from_source_r8 :
+    Gen.cqmChecksLocalHeaders = true ∧ Gen.cqmChecksArchiveTiling = true ∧
+    Gen.cqmOpenerComparedFields = ["compress_size", "flag_bits", "header_offset", "orig_filename"] := by decide
+
+/-- non-vacuity: a member as `writestr` writes it (size in the header) and one as `zf.open(name, 'w', force_zip64=True)`
+    writes it (`0xFFFFFFFF` + zip64 extra: id 1, length 16, file size, compressed size) both meet `LocalOK` -/
+example : (ZEntry.mk [118] [1, 2, 3] [1, 2, 3] 0 0 20 20 0 0 0 3 3 [] [] 0 0).LocalOK ∧
+    (ZEntry.mk [111] [1, 2, 3] [1, 2, 3] 0 0 45 45 0 0 0 4294967295 4294967295
+      ([1, 0, 16, 0] ++ toLE 8 3 ++ toLE 8 3) [] 0 0).LocalOK := by decide
 
 end C10
